@@ -892,31 +892,9 @@ impl Value {
             InnerDecimalSchema::Bytes => (),
         };
         match self {
-            Value::Decimal(num) => {
-                let num_bytes = num.len();
-                if max_prec_for_len(num_bytes)? < precision {
-                    Err(Details::ComparePrecisionAndSize {
-                        precision,
-                        num_bytes,
-                    }
-                    .into())
-                } else {
-                    Ok(Value::Decimal(num))
-                }
-                // check num.bits() here
-            }
-            Value::Fixed(_, bytes) | Value::Bytes(bytes) => {
-                if max_prec_for_len(bytes.len())? < precision {
-                    Err(Details::ComparePrecisionAndSize {
-                        precision,
-                        num_bytes: bytes.len(),
-                    }
-                    .into())
-                } else {
-                    // precision and scale match, can we assume the underlying type can hold the data?
-                    Ok(Value::Decimal(Decimal::from(bytes)))
-                }
-            }
+            // A value may use fewer bytes than the largest value of the precision would need
+            Value::Decimal(num) => Ok(Value::Decimal(num)),
+            Value::Fixed(_, bytes) | Value::Bytes(bytes) => Ok(Value::Decimal(Decimal::from(bytes))),
 
             // Per spec §Records, a decimal value can be encoded as a JSON string
             // whose codepoints (0-255) map directly to byte values. This applies
